@@ -66,6 +66,19 @@ def o_msm(case):
     other = parse_4076_201(m)
     if other is not None:
         raise Fail("vtec-helper-on-msm", f"{ident}: parse_4076_201 returned {type(other).__name__}")
+    if not case.get("_second"):
+        # the same payload under the other label option, then look at BOTH results again: a helper result belongs to
+        # the message it was computed from, whatever is converted afterwards
+        lm2 = 3 - case.get("labelmsm", 1)
+        m2 = RTCMMessage(payload=p, labelmsm=lm2)
+        res2 = parse_msm(m2)
+        for mm, rr, lmx in ((m, res, case.get("labelmsm", 1)), (m2, res2, lm2)):
+            meta_x, sats_x, cells_x = rr
+            if meta_x.get("identity") != ident or meta_x.get("sats") != mm.NSat or meta_x.get("cells") != mm.NCell or meta_x.get("station") != mm.DF003:
+                raise Fail("msm-result-changed-by-later-call", f"{ident} labelmsm={lmx}: metadata of an earlier result no longer matches its message after a later parse_msm call")
+            for i, ent in enumerate(cells_x, 1):
+                if ent.get("CELLSIG") != getattr(mm, f"CELLSIG_{i:02d}") or ent.get("CELLPRN") != getattr(mm, f"CELLPRN_{i:02d}"):
+                    raise Fail("msm-result-mixes-label-options", f"{ident} labelmsm={lmx}: cell {i} CELLSIG {ent.get('CELLSIG')!r} but the message has {getattr(mm, f'CELLSIG_{i:02d}')!r}")
     cls = [cons, f"msm{pins.msm_level(ident)}"]
     if nsat == 0:
         cls.append("nsat0")
